@@ -125,6 +125,115 @@ Qed.
 End Type1.
 Print Assumptions type1_roundtrip.
 
+(* ---- the same for an arbitrary state byte: ON iff it is 01; a device that is not ON may carry anything in its countdown field ---- *)
+Lemma state_byte_all : forallb (fun b => Bool.eqb (eqs (hexlify [b]) "01") (b =? 1)) (map N.of_nat (seq 0 256)) = true.
+Proof. vm_compute. reflexivity. Qed.
+Lemma state_byte_on b : b < 256 -> eqs (hexlify [b]) "01" = (b =? 1).
+Proof.
+  intros Hb. pose proof state_byte_all as H. rewrite forallb_forall in H.
+  specialize (H b). apply Bool.eqb_prop. apply H. apply in_map_iff. exists (N.to_nat b). split; [apply N2Nat.id|]. apply in_seq. lia.
+Qed.
+
+Section Type1Any.
+Variables (f1 id f2 : bytes) (key : N) (f3 name ip mac f5 : bytes) (stb : N) (f6 : bytes) (power : N) (f7a f7b : bytes)
+          (remaining : N) (f8 : bytes) (auto : N) (f9 : bytes).
+Variables (tname tvalue thex : string) (proto : N) (cat : string).
+Hypothesis Hrow : In (tname, tvalue, thex, proto, cat) device_types.
+Hypothesis L1 : length f1 = 16%nat.  Hypothesis Lid : length id = 3%nat.  Hypothesis L2 : length f2 = 19%nat.
+Hypothesis L3 : length f3 = 1%nat.   Hypothesis Lip : length ip = 4%nat.  Hypothesis Lmac : length mac = 6%nat.
+Hypothesis L5 : length f5 = 47%nat.  Hypothesis L6 : length f6 = 1%nat.   Hypothesis L7a : length f7a = 2%nat.
+Hypothesis L7b : length f7b = 8%nat. Hypothesis L8 : length f8 = 4%nat.   Hypothesis L9 : length f9 = 6%nat.
+Hypothesis Lname : (length name <= 32)%nat.  Hypothesis Vname : utf8_valid name = true.  Hypothesis Nname : last name 1 <> 0.
+Hypothesis Hstb : stb < 256.
+Let on : bool := stb =? 1.          (* ON iff the state byte is 01 *)
+Hypothesis Hpower : power < 65536.  Hypothesis Hrem : on = true -> remaining < 86400.  Hypothesis Hauto : auto < 86400.
+
+Let segs := type1_segs f1 id f2 key f3 (pad0 32 name) (unhex_str thex) ip mac f5 stb f6 power (f7a ++ f7b)
+                       remaining f8 auto f9.
+Let m := concat segs.
+Hypothesis Hwf : wf_bytes m.
+
+Lemma type1_common_any :
+  length (pad0 32 name) = 32%nat /\ length (unhex_str thex) = 2%nat /\ length m = 165%nat /\ is_switcher_originator m = true.
+Proof.
+  destruct (type_row _ _ _ _ _ Hrow) as [_ [Lm _]].
+  assert (Ln : length (pad0 32 name) = 32%nat) by (unfold pad0; rewrite app_length, repeat_length; lia).
+  assert (Hlen : length m = 165%nat).
+  { unfold m, segs, type1_segs. cbn [concat]. rewrite !app_length. cbn [length le16 le32].
+    rewrite Ln, Lm, L1, Lid, L2, L3, Lip, Lmac, L5, L6, L7a, L7b, L8, L9. reflexivity. }
+  split; [exact Ln|]. split; [exact Lm|]. split; [exact Hlen|].
+  apply originator_iff; [exact Hwf|]. split; [reflexivity|left; exact Hlen].
+Qed.
+
+Ltac offs := cbn [offset segs type1_segs nth length le16 le32]; rewrite ?app_length;
+  rewrite ?L1, ?Lid, ?L2, ?L3, ?(proj1 type1_common_any), ?(proj1 (proj2 type1_common_any)), ?Lip, ?Lmac, ?L5, ?L6, ?L7a, ?L7b, ?L8, ?L9; lia.
+
+Theorem type1_roundtrip_any : cat = "WATER_HEATER"%string \/ cat = "POWER_PLUG"%string ->
+  parse_datagram false false m =
+  Delivered (if String.eqb cat "WATER_HEATER"
+             then DWaterHeater tname on (hexlify id) (hexlify [key]) (dotted ip) (mac_of mac) name (if on then power else 0)
+                               (if on then fmt_hhmmss remaining else s2l "00:00:00") (fmt_hhmmss auto)
+             else DPowerPlug tname on (hexlify id) (hexlify [key]) (dotted ip) (mac_of mac) name (if on then power else 0)).
+Proof.
+  intros Hcat. destruct type1_common_any as [Ln [Lm [Hlen Horig]]].
+  destruct (type_row _ _ _ _ _ Hrow) as [Mhex [_ Mrow]].
+  assert (S1 : forall k lo hi, (k < 19)%nat -> lo = offset segs k -> hi = (lo + length (nth k segs []))%nat ->
+               pyslice lo hi m = nth k segs []).
+  { intros k lo hi Hk Hlo Hhi. apply slice_segment; assumption. }
+  assert (H1 : forall k lo hi lo2 hi2, (k < 19)%nat -> lo2 = (2*lo)%nat -> hi2 = (2*hi)%nat ->
+               lo = offset segs k -> hi = (lo + length (nth k segs []))%nat ->
+               pyslice lo2 hi2 (hexlify m) = hexlify (nth k segs [])).
+  { intros k lo hi lo2 hi2 Hk -> -> Hlo Hhi. rewrite hexlify_slice. f_equal. apply S1; assumption. }
+  unfold parse_datagram. rewrite Horig. cbn [negb].
+  rewrite (S1 7%nat 74%nat 76%nat) by offs. cbn [nth segs type1_segs]. rewrite Mhex, Mrow. cbv iota beta.
+  assert (Hnb : String.eqb tname "BREEZE" = false).
+  { assert (Hb : forallb (fun '(n, _, _, _, c) => negb (String.eqb n "BREEZE") || String.eqb c "THERMOSTAT")%bool device_types = true)
+      by (vm_compute; reflexivity).
+    rewrite forallb_forall in Hb. specialize (Hb _ Hrow). cbv beta iota in Hb.
+    destruct (String.eqb tname "BREEZE"); [|reflexivity]. cbn [negb orb] in Hb. apply String.eqb_eq in Hb.
+    destruct Hcat as [Hc|Hc]; rewrite Hc in Hb; discriminate. }
+  rewrite Hnb.
+  (* state byte and power *)
+  rewrite (H1 11%nat 133%nat 134%nat 266%nat 268%nat) by offs. cbn [nth segs type1_segs].
+  assert (Hon : eqs (hexlify [stb]) "01" = on) by (unfold on; apply state_byte_on; exact Hstb). rewrite Hon.
+  assert (Hpw : (if on then int16r (swap2 (pyslice 270 278 (hexlify m))) else Ok 0) = Ok (if on then power else 0)).
+  { destruct on eqn:Eon; [|reflexivity].
+    change (pyslice 270 278 (hexlify m)) with (pyslice (2*135) (2*139) (hexlify m)). rewrite hexlify_slice.
+    assert (Hs : pyslice 135 139 m = le16 power ++ f7a).
+    { assert (E : m = concat (firstn 13 segs) ++ (le16 power ++ f7a) ++ f7b ++ concat (skipn 15 segs)).
+      { unfold m, segs, type1_segs. cbn [firstn skipn concat]. rewrite <- !app_assoc. cbn [app]. reflexivity. }
+      rewrite E. assert (Lp : length (concat (firstn 13 segs)) = 135%nat).
+      { unfold segs, type1_segs. cbn [firstn concat]. rewrite !app_length. cbn [length]. rewrite Ln, Lm, L1, Lid, L2, L3, Lip, Lmac, L5, L6. reflexivity. }
+      change 139%nat with (135 + 4)%nat. rewrite <- Lp at 1 2.
+      replace 4%nat with (length (le16 power ++ f7a)) by (rewrite app_length, L7a; reflexivity).
+      apply AS.Proofs.FrameAll.pyslice_app_mid. }
+    rewrite Hs, swap2_le16_pad by exact L7a. unfold int16r.
+    rewrite int16_hexlify by (try discriminate; repeat constructor; apply N.mod_lt; discriminate).
+    rewrite of_be_16 by exact Hpower. reflexivity. }
+  rewrite Hpw.
+  (* name *)
+  rewrite (S1 6%nat 42%nat 74%nat) by offs. cbn [nth segs type1_segs]. unfold decode_str, pad0.
+  rewrite utf8_valid_pad by exact Vname. cbn [bind]. rewrite rstrip0_pad by exact Nname.
+  (* id, key, ip, mac *)
+  rewrite (H1 2%nat 18%nat 21%nat 36%nat 42%nat) by offs.
+  rewrite (H1 4%nat 40%nat 41%nat 80%nat 82%nat) by offs.
+  rewrite (S1 8%nat 76%nat 80%nat) by offs.
+  rewrite (S1 9%nat 80%nat 86%nat) by offs.
+  cbn [nth segs type1_segs].
+  destruct Hcat as [-> | ->].
+  - change (String.eqb "WATER_HEATER" "WATER_HEATER") with true. cbv iota.
+    assert (Hr : (if on then le_time m 294 else Ok (s2l "00:00:00")) = Ok (if on then fmt_hhmmss remaining else s2l "00:00:00")).
+    { destruct on eqn:Eon; [|reflexivity]. apply le_time_field; [|apply Hrem; reflexivity].
+      apply (H1 15%nat 147%nat 151%nat 294%nat 302%nat); offs. }
+    rewrite Hr. rewrite (le_time_field m 310 auto); [reflexivity| |exact Hauto].
+    apply (H1 17%nat 155%nat 159%nat 310%nat 318%nat); offs.
+  - change (String.eqb "POWER_PLUG" "WATER_HEATER") with false.
+    change (String.eqb "POWER_PLUG" "POWER_PLUG") with true. cbv iota. reflexivity.
+Qed.
+End Type1Any.
+Print Assumptions type1_roundtrip_any.
+
+
 Lemma dirs_ok : table_ok shutter_directions = true. Proof. vm_compute. reflexivity. Qed.
 
 Section Runner.
